@@ -52,7 +52,7 @@ def run_histories(chk, name, histories, key_fn, shard=40):
                 continue
             cases.append(term)
             meta.append((i, mode, coro, results))
-            key = key_fn(cfg, ops, results)
+            key = key_fn(cfg, cli.expand_ops(ops), results)
             chk.count(1, key, {'mode': mode, 'ops': [repr(o)[:100] for o in ops[:10]]} if i < 2 and mode == 'sync' else None)
         for o in ops:
             chk.dist('op ' + o[0])
@@ -124,7 +124,7 @@ def report(chk, name, hs, bad, classify, max_sigs=6):
     for i, mode, coro, code, term, results in bad:
         cfg, ops, _ = hs[i]
         if code & 2:
-            sig = classify(name, cfg, ops, results, code)
+            sig = classify(name, cfg, cli.expand_ops(ops), results, code)
         else:
             sig = '%s-%s-correspondence' % (name, mode)
         where_seen.setdefault(sig, set()).add('Client' if mode == 'sync' else 'AsyncClient')
@@ -136,7 +136,7 @@ def report(chk, name, hs, bad, classify, max_sigs=6):
 
         def keep(c, cand, res, sig=sig, want_prop=want_prop, cfg=cfg):
             if want_prop:
-                return bool(c & 2) and classify(name, cfg, cand, res, c) == sig
+                return bool(c & 2) and classify(name, cfg, cli.expand_ops(cand), res, c) == sig
             return bool(c & 1)
         try:
             small = ops if os.environ.get('VERIF_NOSHRINK') else shrink(name, cfg, ops, mode, coro, keep)
@@ -165,7 +165,7 @@ def replay_common(chk, data, name):
             'xfirst_diff (x_cfg %s) cli_init (x_ops %s) (x_obs %s) 0') % (term, term, term)
     rc, out = coqio.eval_print(name + '_replay', IMPORTS_FMT % VARIANT[name][0], '', ['%s %s' % (VARIANT[name][3], term), diff])
     print(out[-2500:])
-    for o, (e, _, d) in zip(ops, results):
+    for o, (e, _, d) in zip(cli.expand_ops(ops), results):
         print(o, '=>', e, d)
     return 0 if code == 0 else 1
 
